@@ -15,7 +15,7 @@ import (
 )
 
 type GoOp struct {
-	Op  string `json:"op"` // RP | CA | CO | TRY | FOROF
+	Op  string `json:"op"` // RP | CA | CO | TRY | FOROF | RPS | CAS | TRYS (…S: result of the nested call ignored)
 	Src string `json:"src,omitempty"`
 	Fn  string `json:"fn,omitempty"`
 	N   int    `json:"n,omitempty"`
@@ -100,6 +100,20 @@ func (e *env) runOps(ops []GoOp) {
 			if ex := r.Try(func() { e.runOps(op.Ops) }); ex != nil {
 				panic(ex)
 			}
+		case "TRYS":
+			_ = r.Try(func() { e.runOps(op.Ops) }) // the returned exception is ignored
+		case "RPS":
+			before := goja.VerifC03VMState(r).Interrupted
+			_, err := r.RunProgram(e.prog(op.Src))
+			e.swallow(err, before)
+		case "CAS":
+			f, ok := goja.AssertFunction(r.Get(op.Fn))
+			if !ok {
+				panic("harness: not a function: " + op.Fn)
+			}
+			before := goja.VerifC03VMState(r).Interrupted
+			_, err := f(goja.Undefined(), e.args(op.N)...)
+			e.swallow(err, before)
 		case "FOROF":
 			f, _ := goja.AssertFunction(r.Get(op.Fn))
 			r.ForOf(r.NewArray(0), func(goja.Value) bool {
@@ -111,6 +125,18 @@ func (e *env) runOps(ops []GoOp) {
 		default:
 			panic("harness: bad go op " + op.Op)
 		}
+	}
+}
+
+// swallow ignores the error of a nested call, as a careless native would.  An uncatchable error that left the
+// interrupt flag changed (an interrupt that is still pending) is passed on: ignoring it has no effect anyway,
+// the caller's run loop raises it again at its next instruction.
+func (e *env) swallow(err error, flagBefore bool) {
+	if err == nil {
+		return
+	}
+	if classify(err) == "fatal" && goja.VerifC03VMState(e.r).Interrupted != flagBefore {
+		panic(err)
 	}
 }
 
